@@ -26,6 +26,7 @@ func init() {
 	zzsv.Register("ZZ_C01_MixedOperands", ZZ_C01_MixedOperands)
 	zzsv.Register("ZZ_C01_Index", ZZ_C01_Index)
 	zzsv.Register("ZZ_C01_UnaryLiterals", ZZ_C01_UnaryLiterals)
+	zzsv.Register("ZZ_C01_PrintedForms", ZZ_C01_PrintedForms)
 }
 
 var zzBinOps = []string{"+", "-", "*", "/", "%", "**", "<", "<=", ">", ">=", "==", "!=", "~=", "!~", "in", ".."}
@@ -855,5 +856,58 @@ func ZZ_C01_UnaryLiterals(sv *zzsv.T) {
 		sv.Assert("C01.unarylit.error", err != nil)
 	default:
 		sv.Reach("C01.unarylit.unspec")
+	}
+}
+
+// ZZ_C01_PrintedForms: the printed form of a result is part of the value:
+// floats of every magnitude (whole numbers beyond 2^53 and 2^63, tiny
+// fractions, negative zero, infinities) print the way the language prints
+// floats - the shortest decimal that reads back the same, never an
+// exponent - integers print in decimal, arrays print their elements; and
+// `in`, which looks for an element of the same type and printed form, finds
+// exactly the elements that are there.
+func ZZ_C01_PrintedForms(sv *zzsv.T) {
+	floats := []float64{0.5, 2.5, 100, 1e15, 9007199254740993, 4e18, 9.3e18, 9223372036854775808, 1.6e19, 2e19, 1e21, 1e300, -9.3e18, -1e19, 1e-7, -0.0, 0, 1.0 / 3}
+	a := floats[sv.Choice("a", len(floats))]
+	forms := []string{"return a;", "return a * 1.0;", "return a + i;", "return [a, i];", "return a in [i, a];", "return (a / 2.0) in [a, a * 1.5];", "return i in [a];", "return a * a;"}
+	f := sv.Choice("form", len(forms))
+	i := sv.Int64("i")
+	sv.Assume(i >= 0 && i <= 3)
+	e := New(forms[f])
+	sv.Note("script", e.Script)
+	e.SetVariable("a", &object.Float{Value: a})
+	e.SetVariable("i", &object.Integer{Value: i})
+	if sv.Choice("noopt", 2) == 1 {
+		sv.Assume(e.Prepare([]byte{NoOptimize}) == nil)
+	} else {
+		sv.Assume(e.Prepare() == nil)
+	}
+	out, err := e.Execute(nil)
+	zzDescribe(sv, "result", out, err)
+	sv.Assert("C01.printed.noerror", err == nil && out != nil)
+	if err != nil || out == nil {
+		return
+	}
+	pf := func(x float64) string { return strconv.FormatFloat(x, 'f', -1, 64) }
+	switch f {
+	case 0:
+		sv.Assert("C01.printed.float", out.Type() == object.FLOAT && out.Inspect() == pf(a))
+	case 1:
+		sv.Assert("C01.printed.float", out.Type() == object.FLOAT && out.Inspect() == pf(a*1.0))
+	case 2:
+		sv.Assert("C01.printed.float", out.Type() == object.FLOAT && out.Inspect() == pf(a+float64(i)))
+	case 3:
+		sv.Assert("C01.printed.array", out.Type() == object.ARRAY && out.Inspect() == "["+pf(a)+", "+strconv.FormatInt(i, 10)+"]")
+	case 4:
+		sv.Assert("C01.printed.in", zzSame(sv, out, zBool(true)))
+	case 5:
+		// a/2 equals a or 1.5a only for zeros and infinities
+		half := a / 2
+		sv.Assert("C01.printed.in", zzSame(sv, out, zBool(half == a || half == a*1.5)))
+	case 6:
+		// an integer is not an element of an array that holds only a float
+		sv.Assert("C01.printed.in", zzSame(sv, out, zBool(false)))
+	default:
+		sv.Assert("C01.printed.float", out.Type() == object.FLOAT && out.Inspect() == pf(a*a))
 	}
 }
